@@ -45,9 +45,15 @@ def _mem(rng, kind):
 
 
 def _data(rng, n):
-    if n <= 0:
-        return b''
-    return bytes(rng.randrange(1, 256) for _ in range(min(n, 64))) + rng.randbytes(max(0, n - 64))
+    r = rng.random()
+    if r < 0.12:
+        return bytes(n)                                   # all zeros: a write of zeros is a write
+    if r < 0.2 and n > 4:
+        k = rng.randrange(1, n)
+        return bytes(k) + rng.randbytes(n - k) if rng.random() < 0.5 else rng.randbytes(k) + bytes(n - k)
+    if r < 0.25:
+        return b'\xff' * n
+    return rng.randbytes(n)
 
 
 def generate(tier, rng):
@@ -76,6 +82,17 @@ def generate(tier, rng):
             case['build'] = 'buffers'
             if rng.random() < 0.7:
                 mem[3] = mem[2]      # equal gff / music contents: the caller may hand in one buffer for both
+        elif rng.random() < 0.15:
+            # the cart was LOADED from a .p8 file saved the PICO-8 way (see lib.game_from_p8)
+            from props import shortp8
+            case['build'] = 'p8'
+            mm = []
+            for sec in ('gfx', 'map', 'gff', 'music', 'sfx'):
+                if rng.random() < 0.4:
+                    mm.append(shortp8.default_region(sec))
+                else:
+                    mm.append(shortp8.region_with_default_tail(rng, sec, rng.randrange(1, shortp8.ROWS[sec] + 1)))
+            case['mem'] = [lib.hx(m) for m in mm]
         elif k >= 2 and rng.random() < 0.35:
             # between two writes the caller replaces section objects of the cart (game.sfx = another Sfx ..., as the
             # cart readers do): later writes must land in the sections the cart has THEN
@@ -96,6 +113,8 @@ def corpus_cases():
     yield {'mem': z, 'writes': [[0x1ff8, '07' * 16], [0x2ffe, '0102'], [0x4300, '-']]}
     # a section object replaced between two writes (seed s4b_C18: a memory map cached at the first write)
     yield {'mem': z, 'writes': [[0x3200, '0102'], [0x3204, '0304']], 'rebind': [[1, 4]]}
+    ff = [lib.hx(b'\xff' * n) for n in SIZES]
+    yield {'mem': ff, 'writes': [[0x100, '00' * 16], [0x1ffe, '556600'], [0x42ff, '00']]}      # zeros over non-zero contents
     yield {'mem': z, 'writes': [[0x0, '01'], [0x1000, '0203'], [0x2000, '04']], 'rebind': [[1, 0], [2, 1]]}
 
 
@@ -103,6 +122,8 @@ def run_impl(case):
     from pico8.game.game import Game
     if case.get('build') == 'buffers':
         g, secs, _ = lib.game_from_buffers(case['mem'])
+    elif case.get('build') == 'p8':
+        g, secs = lib.game_from_p8(case['mem'])
     else:
         g = Game.make_empty_game()
         secs = [g.gfx, g.map, g.gff, g.music, g.sfx]
